@@ -173,6 +173,7 @@ def run(rep, tier):
     with open(tpath, "w") as f:
         for e in events:
             f.write(json.dumps({k: e[k] for k in keep if k in e}) + "\n")
+    vlib.maybe_corrupt(tpath)
     res = vlib.run_tlc("C17", "Trace_C17", name="trace", env={"TRACE": tpath}, workers=1, stack="1g", heap="8g")
     if res.violated or res.rc != 0:
         raise vlib.ToolError("Trace_C17 failed: %s" % res.lines[-20:])
